@@ -143,6 +143,13 @@ def _layout_jobs(tier, seed):
         for (L, W) in ((1, 3), (3, 1)):
             for first in range(8):
                 jobs.append(dict(L=L, W=W, first=first, tied_loose=True, _cost=16))
+    else:
+        # 6-tile boards (beyond the property's exhaustive bound): all arrow layouts, loose flags tied to the arrows' parity
+        for (L, W) in ((2, 3), (3, 2)):
+            for first in range(8):
+                for second in range(8):
+                    if (first // 4, second // 4) == ((first % 4) % 2, ((second % 4) + 1) % 2):
+                        jobs.append(dict(L=L, W=W, first=first, second=second, tied_loose=True, _cost=300, _timeout_s=2400))
     return jobs
 
 
@@ -171,7 +178,8 @@ def _board(sp, L, W, first, second, tied_loose=False):
          covers=["width1", "length1", "arrow3", "loose", "game_a", "game_b", "game_c"],
          stubs=["open -> in-memory file shared by writer and reader", "int -> identity on symbolic ints",
                 "repr of a symbolic number -> identifier resolved in the reader's namespace"],
-         bounds="every board shape with <= 4 tiles (quick: <= 2 tiles plus 3-tile boards with loose flags tied to arrows), every "
+         bounds="every board shape with <= 4 tiles (quick: <= 2 tiles plus 3-tile boards with loose flags tied to arrows; thorough adds "
+                "2x3 and 3x2 boards with all arrow layouts and tied loose flags), every "
                 "arrow/loose layout, all rewards >= 0 (symbolic integers), all three break probabilities in (0,1) (symbolic reals)",
          desc="real write_robots -> text -> real read_dict_from_file: exactly game_a, game_b, game_c; each is, from state 0, "
               "isomorphic (owners, rewards, finals, action labels, probabilities) to the reference Roborta game of the board; "
